@@ -363,6 +363,36 @@ pub fn run(rt: &tokio::runtime::Runtime, cols: &[&str]) -> Value {
                 Err(e) => json!({"ok": false, "display": e}),
             }
         }
+        // scenario <path of a scenario file>: one random draw through the same four plugins as tests/end2end.rs
+        // (generate_mt -> publish_mt -> validate_mt -> parse_mt); every intermediate value is returned
+        "scenario" => {
+            let text = match std::fs::read_to_string(cols[1]) {
+                Ok(t) => t,
+                Err(e) => return json!({"bad_case": format!("read: {e}")}),
+            };
+            let schema: Value = match serde_json::from_str(&text) {
+                Ok(v) => v,
+                Err(e) => return json!({"bad_case": format!("json: {e}")}),
+            };
+            let mut m = Message::from_value(&schema);
+            m.invalidate_context_cache();
+            if let Err(e) = plugin_run(rt, &swift_mt_message::plugin::Generate, "generate_mt", &mut m, json!({"target": "sample_json"})) {
+                return json!({"ok": false, "stage": "generate", "display": e});
+            }
+            let sample = m.data().get("sample_json").cloned().unwrap_or(Value::Null);
+            if let Err(e) = plugin_run(rt, &swift_mt_message::plugin::Publish, "publish_mt", &mut m, json!({"source": "sample_json", "target": "sample_mt"})) {
+                return json!({"ok": false, "stage": "publish", "display": e, "sample_json": sample});
+            }
+            let mt = m.data().get("sample_mt").cloned().unwrap_or(Value::Null);
+            if let Err(e) = plugin_run(rt, &swift_mt_message::plugin::Validate, "validate_mt", &mut m, json!({"source": "sample_mt", "target": "validation_result"})) {
+                return json!({"ok": false, "stage": "validate", "display": e, "sample_json": sample, "sample_mt": mt});
+            }
+            let val = m.data().get("validation_result").cloned().unwrap_or(Value::Null);
+            if let Err(e) = plugin_run(rt, &swift_mt_message::plugin::Parse, "parse_mt", &mut m, json!({"source": "sample_mt", "target": "mt_json"})) {
+                return json!({"ok": false, "stage": "parse", "display": e, "sample_json": sample, "sample_mt": mt, "validation_result": val});
+            }
+            json!({"ok": true, "sample_json": sample, "sample_mt": mt, "validation_result": val, "mt_json": m.data().get("mt_json").cloned().unwrap_or(Value::Null)})
+        }
         // sample <MTnnn> <scenario name or -> <scenario base dir>: one random draw of a shipped scenario
         "sample" => {
             let cfg = swift_mt_message::ScenarioConfig::with_paths(vec![std::path::PathBuf::from(cols[3])]);
